@@ -1,5 +1,6 @@
 (* C02 — Observations and actions always live in the agents' declared spaces.
-   Statements only; proofs in Proofs/Member_proofs.v and Proofs/AttackTotal_proofs.v.
+   Statements only; proofs in Proofs/Member_proofs.v, Proofs/AttackTotal_proofs.v,
+   Proofs/ObsHist_proofs.v and Proofs/ObsMember_proofs.v.
 
    What is a theorem here (on the existing models Grid/Move.v, Grid/Attack.v, Spaces/*, Ctl/Super.v,
    Ctl/Comms.v; declared channels and null points in Grid/ActSpace.v):
@@ -8,9 +9,11 @@
      * the declared NULL POINTS of the actor channels (and of the communication wrapper) are members
        of the declared spaces;
      * the WRAPPED observation is a member of the wrapped space (corollaries of C04, C05, C14, C20).
-   What is NOT a theorem here: the five observers (their per-cell theorems are C09's; the statements
-   wanted are in the TODO block at the end), the packaged example simulations' bespoke components and
-   the composition of components into simulations: those are covered by the monitor run of
+     * every value the five built-in OBSERVERS (models: Grid/Observe.v, property C09) emit lies in the
+       Box their constructor declares (Grid/ObsSpace.v) and has the declared shape, the declared null
+       observations are members (last part of this file).
+   What is NOT a theorem here: the packaged example simulations' bespoke components and the
+   composition of components into simulations: those are covered by the monitor run of
    harness/gen_C02.py only (testing).  The monitors' reference behaviour and checker are
    Spaces/Monitor02.v. *)
 From Coq Require Import ZArith List Bool Arith Lia.
@@ -20,6 +23,8 @@ From Abm Require Import Base.Sx Spaces.Space Spaces.Ravel Spaces.Flatten Spaces.
   Proofs.Ravel_proofs Proofs.Flatten_proofs Proofs.Grid_proofs Proofs.Move_proofs Proofs.Attack_proofs
   Proofs.Managers_proofs Proofs.Super_proofs Proofs.Comms_proofs
   Proofs.Member_proofs Proofs.AttackTotal_proofs.
+From Abm Require Import Grid.AttackRun Grid.Play Grid.Observe Grid.ObsSpace
+  Proofs.Play_proofs Proofs.Observe_proofs Proofs.ObsHist_proofs Proofs.ObsMember_proofs.
 Import ListNotations.
 Open Scope Z_scope.
 
@@ -210,37 +215,176 @@ Proof.
   repeat split; try (vm_compute; reflexivity); eexists; try eexists; vm_compute; repeat split; reflexivity.
 Qed.
 
-(* ---- TODO (integrator): observer membership, from C09's per-cell theorems (Grid/Observe.v) --------
-   The observer models are property C09's and are not part of this development yet.  Wanted, for
-   every state satisfying ginv, every placed observing agent i, every oracle (np.random.choice of
-   one encoding among a cell's occupants), with R = the resolved view range, maxenc = the largest
-   encoding in the simulation (encodings positive, as the agent setter documents), n = number of
-   agents:
+(* ==================================================================================================
+   The five built-in observers (abmarl/sim/gridworld/observer.py).  Models: Grid/Observe.v (C09);
+   declared spaces and null observations: Grid/ObsSpace.v, transcribed from the constructors.  A
+   multi-dimensional Box is the BoxI of Spaces/Space.v with one (low, high) pair per component in C
+   order, its point the row-major flattening of the array (flat2 = concat of the rows; flat3 = index
+   ((r * W) + c) * E + e); the two-dimensional shape is stated beside it (`shape`), the length of
+   the layer lists for the stacked view.  Every theorem: every grid size, viewer, range R >= 0 (the
+   resolved view_range), every state satisfying ginv (C03), every oracle `o` (np.random.choice),
+   every visibility function `vis` (the mask, C10).  Hypotheses and where they come from:
+     ginv s             the consistency invariant; holds after reset and after every operation (C03);
+     agent/a_pos/inside the viewer stands in the grid (Grid.place; a dead viewer keeps its position);
+     encs_fit s         no encoding is below -2 and max_encoding >= 0.  An ASSUMPTION ABOUT THE
+                        INPUTS: the encoding setter only refuses -2, -1, 0 (encs_ok), so -5 is a legal
+                        encoding for the code, is emitted by the two encoding observers and lies
+                        below the declared low -2 (C02_encoding_condition_needed).  For encodings the
+                        setter accepts it says exactly: every encoding is positive
+                        (C02_encoding_condition_positive).  Not needed for the stacked, position and
+                        ammunition observers;
+     max_encoding       is the largest encoding among the agents (C02_max_encoding_is_max); the
+                        emitted encodings are encodings of agents of the state (C09);
+     stacked counts     a cell's occupants are distinct agent indices (C09_occupants_exact), so a count
+                        is at most len(agents);
+     ammunition         0 <= ammo from ginv; ammo <= initial_ammo is a HISTORY fact: no operation of
+                        Grid/Play.v increases anybody's ammunition (C02_ammo_never_increases), stated
+                        for every state play reaches from a state in which the ammunition is
+                        initial_ammo (AmmoState.reset).
+   ================================================================================================== *)
 
-   Theorem C02_obs_member_absolute :          [ AbsoluteEncodingObserver, observer.py:81-86 ]
-     member (BoxI (repeat (-2, maxenc) (rows * cols))) (PV (obs_absolute s i o)) = true.
-       -- every emitted cell value is -2 (masked / outside the view), -1 (self), 0 (empty) or an
-          occupant's encoding <= maxenc; the array has rows*cols entries.
-   Theorem C02_obs_member_centered :          [ PositionCenteredEncodingObserver, both observe_self
-                                                 settings, observer.py:176-182 ]
-     member (BoxI (repeat (-2, maxenc) ((2R+1)^2))) (PV (obs_centered self s i o)) = true.
-       -- values: -2 masked, -1 out of bounds, 0 empty (or only the observer itself when
-          observe_self = false), an occupant's encoding.
-   Theorem C02_obs_member_stacked :           [ StackedPositionCenteredEncodingObserver, 276-285 ]
-     member (BoxI (repeat (-2, n) ((2R+1)^2 * maxenc))) (PV (obs_stacked s i)) = true.
-       -- values: -2, -1, 0, or a count of occupants of one encoding; a count is at most the
-          number of agents in the cell <= n (cell dictionaries are duplicate-free lists of valid
-          agent indices: gi_nodup, gi_cell_agent).
-   Theorem C02_obs_member_position :          [ AbsolutePositionObserver, 353-358 ]
-     a_pos a = Some (r, c) -> member (BoxI [(0, rows - 1); (0, cols - 1)]) (PV [r; c]) = true.
-       -- from gi_agent_cell: a placed active agent stands inside the grid.  (For an agent that has
-          died the position is the last one it had, inside the grid as well: needs the invariant
-          "positions of inactive agents stay inside", which hit / kill_inv preserve.)
-   Theorem C02_obs_member_ammo :              [ AmmoObserver, 391-397 ]
-     a_ammo a = Some m -> m <= initial_ammo -> member (BoxI [(0, initial_ammo)]) (PV [m]) = true.
-       -- 0 <= m is gi_vitals; m <= initial_ammo needs the history invariant "ammunition never
-          increases" (process_attack only subtracts; AmmoState.reset sets it to initial_ammo).
-   Theorem C02_obs_null_member_<observer> :   the null observations (-2 everywhere; zeros; 0) are
-       members of the same Boxes (needs 0 <= initial_ammo for the ammo observer, 1 <= rows, cols).
-   Merged Dict of several observers: member_Dict / member_list, as C02_null_actions_member does for
-   the two actor channels. *)
+(* max(self._encodings_in_sim) *)
+Theorem C02_max_encoding_is_max : forall s,
+  (forall j b, agent s j = Some b -> a_enc b <= max_encoding s) /\
+  (g_agents s <> [] -> exists j b, agent s j = Some b /\ a_enc b = max_encoding s).
+Proof. exact max_encoding_is_max. Qed.
+Print Assumptions C02_max_encoding_is_max.
+
+(* AbsoluteEncodingObserver: Box(-2, max_encoding, (rows, cols)) *)
+Theorem C02_obs_member_absolute : forall vis s i a p R o arr o',
+  ginv s -> encs_fit s -> agent s i = Some a -> a_pos a = Some p -> inside s p = true -> 0 <= R ->
+  obs_absolute vis s i R o = OOk arr o' ->
+  shape arr (g_rows s) (g_cols s) /\ member (abs_space s) (flat2 arr) = true.
+Proof. exact obs_member_absolute. Qed.
+Print Assumptions C02_obs_member_absolute.
+
+(* PositionCenteredEncodingObserver, observe_self = os: Box(-2, max_encoding, (2R+1, 2R+1)) *)
+Theorem C02_obs_member_centered : forall vis s i a p R os o arr o',
+  ginv s -> encs_fit s -> agent s i = Some a -> a_pos a = Some p -> inside s p = true -> 0 <= R ->
+  obs_centered vis s i R os o = OOk arr o' ->
+  shape arr (2 * R + 1) (2 * R + 1) /\ member (cent_space s R) (flat2 arr) = true.
+Proof. exact obs_member_centered. Qed.
+Print Assumptions C02_obs_member_centered.
+
+(* StackedPositionCenteredEncodingObserver: Box(-2, len(agents), (2R+1, 2R+1, number_of_encodings));
+   no condition on the encodings *)
+Theorem C02_obs_member_stacked : forall vis s i a p R arr,
+  ginv s -> agent s i = Some a -> a_pos a = Some p -> inside s p = true -> 0 <= R ->
+  obs_stacked vis s i R = Some arr ->
+  shape arr (2 * R + 1) (2 * R + 1) /\
+  (forall r c l, get2 arr r c = Some l -> Z.of_nat (length l) = Z.max 0 (number_of_encodings s)) /\
+  member (stk_space s R) (flat3 arr) = true.
+Proof. exact obs_member_stacked. Qed.
+Print Assumptions C02_obs_member_stacked.
+
+(* AbsolutePositionObserver: Box([0, 0], [rows - 1, cols - 1]), for a living agent in any ginv state *)
+Theorem C02_obs_member_position : forall s i a p,
+  ginv s -> agent s i = Some a -> a_active a = true -> obs_position s i = Some p ->
+  member (pos_space s) (pos_point p) = true.
+Proof. exact obs_member_position. Qed.
+Print Assumptions C02_obs_member_position.
+
+(* ... and for any agent, also one that has died since and reports its last position, in every
+   state reached by any operations from a state in which everybody was alive (after reset) *)
+Theorem C02_obs_member_position_reachable : forall vis s0 ops i p,
+  ginv s0 -> (forall j b, agent s0 j = Some b -> a_active b = true) ->
+  obs_position (play vis s0 ops) i = Some p ->
+  pos_space (play vis s0 ops) = pos_space s0 /\ member (pos_space s0) (pos_point p) = true.
+Proof. exact obs_member_position_reachable. Qed.
+Print Assumptions C02_obs_member_position_reachable.
+
+(* history fact: whatever sequence of moves and attacks is played (any agents, any oracles, well
+   formed or not), every agent is still there and its ammunition is at most what it was; an agent
+   without ammunition stays without *)
+Theorem C02_ammo_never_increases : forall vis s0 ops j b,
+  agent s0 j = Some b ->
+  exists b', agent (play vis s0 ops) j = Some b' /\
+    match a_ammo b with
+    | Some m0 => exists m, a_ammo b' = Some m /\ m <= m0
+    | None => a_ammo b' = None
+    end.
+Proof. exact ammo_never_increases. Qed.
+Print Assumptions C02_ammo_never_increases.
+
+(* AmmoObserver: Box(0, initial_ammo, (1,)), in every state reached from one in which the agent's
+   ammunition is initial_ammo *)
+Theorem C02_obs_member_ammo : forall vis s0 ops i a0 initial_ammo,
+  ginv s0 -> agent s0 i = Some a0 -> a_ammo a0 = Some initial_ammo ->
+  exists m, obs_ammo (play vis s0 ops) i = Some m /\ 0 <= m <= initial_ammo /\
+            member (ammo_space initial_ammo) (ammo_point m) = true.
+Proof. exact obs_member_ammo. Qed.
+Print Assumptions C02_obs_member_ammo.
+
+(* the declared spaces are computed once, by the constructors: they are the same in every state
+   reached (grid size, number of agents and encodings never change), and so is encs_fit *)
+Theorem C02_declared_spaces_stable : forall vis s0 ops R,
+  let s := play vis s0 ops in
+  abs_space s = abs_space s0 /\ cent_space s R = cent_space s0 R /\ stk_space s R = stk_space s0 R /\
+  pos_space s = pos_space s0 /\ (encs_fit s0 -> encs_fit s).
+Proof. exact declared_spaces_stable. Qed.
+Print Assumptions C02_declared_spaces_stable.
+
+(* the null observations: -2 * ones(shape), zeros((2,)), 0.  Side conditions: -2 <= max_encoding
+   (from encs_fit), a grid with at least one cell (the Grid constructor; any placed agent),
+   0 <= initial_ammo (from ginv of the reset state, where ammo = initial_ammo) *)
+Theorem C02_null_observations_member : forall s R initial_ammo,
+  (-2 <= max_encoding s ->
+     member (abs_space s) (abs_null s) = true /\ member (cent_space s R) (cent_null R) = true) /\
+  member (stk_space s R) (stk_null s R) = true /\
+  (1 <= g_rows s -> 1 <= g_cols s -> member (pos_space s) pos_null = true) /\
+  (0 <= initial_ammo -> member (ammo_space initial_ammo) ammo_null = true).
+Proof. exact null_observations_member. Qed.
+Print Assumptions C02_null_observations_member.
+
+(* encs_fit for encodings the setter accepts = every encoding is positive; positive encodings and
+   one agent suffice *)
+Theorem C02_encoding_condition_positive : forall s,
+  (encs_ok s -> encs_fit s -> forall j b, agent s j = Some b -> 1 <= a_enc b) /\
+  (forall i a, agent s i = Some a -> (forall j b, agent s j = Some b -> 1 <= a_enc b) -> encs_fit s).
+Proof. intros s. split; [exact (encs_fit_positive s)|exact (encs_positive_fit s)]. Qed.
+Print Assumptions C02_encoding_condition_positive.
+
+(* ... and it is needed: a 1x2 grid, the viewer beside an agent of encoding -5 (accepted by the
+   setter): both encoding observers emit -5, not a point of Box(-2, max_encoding, ...) *)
+Theorem C02_encoding_condition_needed :
+  encs_okb neg_state = true /\
+  (exists arr, obs_centered vis_model neg_state 0 1 true [1; -5] = OOk arr [] /\
+               member (cent_space neg_state 1) (flat2 arr) = false) /\
+  (exists arr, obs_absolute vis_model neg_state 0 1 [-5] = OOk arr [] /\
+               member (abs_space neg_state) (flat2 arr) = false).
+Proof. exact negative_encoding_escapes. Qed.
+Print Assumptions C02_encoding_condition_needed.
+
+(* ---- non-vacuity of the observer theorems: nv_state above (2x3; agent 0 of encoding 1 with one
+   round at (0,0), agents 1, 2 of encoding 2 at (0,1), (1,1)) ------------------------------------------- *)
+Example C02_obs_nonvacuous :
+  encs_fit nv_state /\
+  (exists a, agent nv_state 0 = Some a /\ a_pos a = Some (0, 0) /\ inside nv_state (0, 0) = true /\
+             a_ammo a = Some 1 /\ a_active a = true) /\
+  max_encoding nv_state = 2 /\ n_agents nv_state = 3 /\
+  obs_centered vis_model nv_state 0 1 false [2; 2] = OOk [[-1; -1; -1]; [-1; 0; 2]; [-1; 0; 2]] [] /\
+  member (cent_space nv_state 1) (flat2 [[-1; -1; -1]; [-1; 0; 2]; [-1; 0; 2]]) = true /\
+  member (cent_space nv_state 1) (flat2 [[-1; -1; -1]; [-1; 0; 3]; [-1; 0; 2]]) = false /\
+  member (cent_space nv_state 1) (flat2 [[-1; -1; -1]; [-1; 0; 2]]) = false /\
+  obs_absolute vis_model nv_state 0 1 [2; 2] = OOk [[-1; 2; -2]; [0; 2; -2]] [] /\
+  member (abs_space nv_state) (flat2 [[-1; 2; -2]; [0; 2; -2]]) = true /\
+  member (abs_space nv_state) (flat2 [[-1; 2; -3]; [0; 2; -2]]) = false /\
+  (exists arr, obs_stacked vis_model nv_state 0 1 = Some arr /\
+     flat3 arr = PV [-1; -1; -1; -1; -1; -1; -1; -1; 1; 0; 0; 1; -1; -1; 0; 0; 0; 1] /\
+     member (stk_space nv_state 1) (flat3 arr) = true) /\
+  member (stk_space nv_state 1) (PV [-1; -1; -1; -1; -1; -1; -1; -1; 1; 0; 0; 4; -1; -1; 0; 0; 0; 1]) = false /\
+  obs_position nv_state 0 = Some (0, 0) /\ member (pos_space nv_state) (pos_point (0, 0)) = true /\
+  member (pos_space nv_state) (pos_point (2, 0)) = false /\
+  (* after the attack of C02_nonvacuous (one round spent, agent 2 dead) *)
+  (let s := play vis_model nv_state
+              [PAttack {| op_att := 0; op_cfg := nv_cf; op_act := ABinary 2;
+                          op_orc := {| o_unif := [0; 0]; o_choice := [[2; 1]%nat; [2%nat]] |} |}] in
+   obs_ammo s 0 = Some 0 /\ member (ammo_space 1) (ammo_point 0) = true /\
+   member (ammo_space 1) (ammo_point 2) = false /\
+   option_map a_active (agent s 2) = Some false /\ obs_position s 2 = Some (1, 1)).
+Proof.
+  split; [apply encs_fitb_ok; vm_compute; reflexivity|].
+  split; [eexists; vm_compute; repeat split; reflexivity|].
+  repeat split; try (vm_compute; reflexivity).
+  eexists. split; [vm_compute; reflexivity|]. split; vm_compute; reflexivity.
+Qed.
